@@ -11,6 +11,7 @@ open Lungo.C15
 #print axioms Lungo.C15.entries_once
 #print axioms Lungo.C15.nonmember_absent
 #print axioms Lungo.C15.coherent_rebuild
+#print axioms Lungo.C15.index_list_sorted_partial
 #print axioms Lungo.C15.coherent_new
 #print axioms Lungo.C15.coherent_insert
 #print axioms Lungo.C15.coherent_delete
